@@ -152,7 +152,7 @@ def o173(ctx):
             ctx.finding(q, "file input", f"with sort_angles={sa} a .tlt file must be returned {'in ascending order (np.sort)' if sa else 'in file order'}",
                         fn, m, extracted=tm.show(t)[:100])
     it = Interp(ctx.prog, assume=assume_map({"isinstance(input_tlt, np.ndarray)": True, "input_tlt.size == 0": False}))
-    r = it.run(q, [Unk(sym("angles"))], {})
+    r = it.run(q, [typed(Unk(sym("angles")), "ndarray")], {})
     ctx.count(1)
     if to_term(r.ret) != sym("angles"):
         ctx.finding(q, "array input", "an array of tilt angles must be returned as it is", fn, m)
